@@ -253,6 +253,8 @@ pub(crate) enum ExprErrorKind {
     UnexpectedValueForSignal(String, OutputValue),
     #[error("random({0}) has no possible values")]
     EmptyRandomRange(i64),
+    #[error("Division by zero")]
+    DivisionByZero,
 }
 
 /// Could not construct static iterator
